@@ -55,65 +55,6 @@ mod verif_c08_position {
         n
     }
 
-    //@ob id=C08.cpr_location.latitude props=C08 tier=dropped mem=high kind=harness fns=adsb/position.rs:cpr_location,adsb/position.rs:fixed_lat
-    //@region all 2 x 17-bit CPR latitudes (longitudes arbitrary), both anchor parities, airborne decode, recovered latitudes within 87S..87N: the NL lookup is asked about the two recovered latitudes of the published algorithm (exact zone index j; within 1e-9 deg); None iff the two zone counts differ; else latitude = recovered latitude of the anchor (newer) frame
-    #[kani::proof]
-    #[kani::unwind(6)]
-    #[kani::stub(crate::decoder::adsb::position::nl, nl_rec)]
-    fn c08_cpr_location_latitude() {
-        let lat: [u32; 2] = kani::any();
-        let lon: [u32; 2] = kani::any();
-        kani::assume(lat[0] < (1 << 17) && lat[1] < (1 << 17) && lon[0] < (1 << 17) && lon[1] < (1 << 17));
-        let form: u32 = kani::any();
-        kani::assume(form <= 1);
-        let r = cpr_location(&lat, &lon, form, 1);
-        let (r0, r1) = vs::spec_rlat(lat[0], lat[1]);
-        // the property's region: positions between 87S and 87N (the code maps a recovered latitude
-        // of exactly -90 to 270, which update_position's range check then refuses to display)
-        kani::assume(r0 >= -87.0 && r0 <= 87.0 && r1 >= -87.0 && r1 <= 87.0);
-        unsafe {
-            assert!(G_NL_CALLS == 2, "zone count looked up for both recovered latitudes");
-            assert!(vs::close(G_NL_ARG[0], r0), "even recovered latitude = Dlat0*(mod(j,60)+lat0/2^17), southern values below 0");
-            assert!(vs::close(G_NL_ARG[1], r1), "odd recovered latitude = Dlat1*(mod(j,59)+lat1/2^17), southern values below 0");
-            let (n0, n1) = (G_NL_RET[0], G_NL_RET[1]);
-            match r {
-                None => assert!(n0 != n1, "no position only for a zone-straddling pair"),
-                Some((la, _lo)) => {
-                    assert!(n0 == n1, "a zone-straddling pair gives no position");
-                    assert!(la == G_NL_ARG[form as usize], "latitude = recovered latitude of the anchor (newer) frame");
-                }
-            }
-        }
-        kani::cover!(r.is_some(), "decoded");
-        kani::cover!(r.is_none(), "zone straddling");
-        kani::cover!(true, "reach_end");
-    }
-
-    //@ob id=C08.cpr_location.longitude props=C08 tier=dropped mem=high kind=harness fns=adsb/position.rs:cpr_location,adsb/position.rs:signed_lon,adsb/position.rs:pmod
-    //@region all 2 x 17-bit CPR longitudes, both anchor parities, every zone count NL 1..59 (one pass per NL; latitudes fixed, they only feed the NL lookup): longitude = 360/n_i * (mod(m, n_i) + lon_i/2^17) wrapped to [-180,180), m the exact integer zone index, n_i = max(NL - i, 1)
-    #[kani::proof]
-    #[kani::unwind(61)]
-    #[kani::stub(crate::decoder::adsb::position::nl, nl_rec)]
-    fn c08_cpr_location_longitude() {
-        let lat: [u32; 2] = [0x1_0000, 0x0_F000];
-        let lon: [u32; 2] = kani::any();
-        kani::assume(lon[0] < (1 << 17) && lon[1] < (1 << 17));
-        let form: u32 = kani::any();
-        kani::assume(form <= 1);
-        let mut n: i32 = 1;
-        while n <= 59 {
-            unsafe {
-                G_NL_FIXED = n;
-            }
-            match cpr_location(&lat, &lon, form, 1) {
-                Some((_la, lo)) => assert!(lo == vs::spec_rlon(lon[0], lon[1], n, form), "longitude = 360/n_i*(mod(m,n_i)+lon_i/2^17), m exact, wrapped to [-180,180)"),
-                None => assert!(false, "equal zone counts: a position is produced"),
-            }
-            n += 1;
-        }
-        kani::cover!(true, "reach_end");
-    }
-
     //@ob id=C08.cpr_location.no_panic props=C01 tier=quick kind=harness fns=adsb/position.rs:cpr_location
     //@region all 4 x 17-bit CPR fields, both parities, airborne and surface (quarter-zone) decode with the real NL lookup: no panic, no overflow, no division by zero
     #[kani::proof]
